@@ -974,7 +974,7 @@ impl Exec for AbtExec {
                 // C18 on a single call, whatever it is fed: a reader touches no lock, ever
                 if matches!(call, Call::Snapshot | Call::Unlocked) {
                     let l = so.obs[0].clone();
-                    if l.split(';').any(|p| p.starts_with("lock") || p.starts_with("trylock") || p.starts_with("want:lock") || p.starts_with("want:trylock") || p.starts_with("unlock") || p.starts_with("clear_poison")) {
+                    if l.split(';').any(|p| p.contains("lock") || p.contains("clearpoison")) {
                         so.violations.push(format!("C18 snapshot performs a lock operation (trace {})", if l.len() > 120 { &l[l.len() - 120..] } else { &l }));
                     }
                 }
